@@ -2,7 +2,7 @@
    (pcapgo/ngwrite*.go) was given; a truncated file gives a true prefix.
    Property theorems only; proofs in Proofs/NgExec.v, NgRoundtrip.v (one packet block), NgFile.v (whole
    files), NgPrefix.v and NgPrefixFile.v (truncation). *)
-From GP Require Import Base NgModel NgIoProofs NgWp NgSafeProofs NgExec NgRoundtrip NgFile NgPrefix NgPrefixFile NgFuel NgPrefixOwn.
+From GP Require Import Base NgModel NgIoProofs NgWp NgSafeProofs NgExec NgRoundtrip NgFile NgPrefix NgPrefixFile NgFuel NgPrefixOwn NgUnmixed NgFull NgUnmixedPrefix.
 Open Scope Z_scope.
 
 Definition new_class (r : Z * list pkt * Z * rst) : Z := fst (fst (fst r)).
@@ -11,14 +11,7 @@ Definition packets (r : Z * list pkt * Z * rst) : list pkt := snd (fst (fst r)).
 
 (* ------------------------------------------------------------------ full statements *)
 (* what a script asks the writer to store, as the reader reports it *)
-Definition expected_pkt (links : list Z) (op : wop) : list pkt :=
-  match op with
-  | WPacket ifid ts caplen len data o =>
-    [mkPkt (mkCi ifid (ts / E9, ts mod E9) caplen len) (nth (Z.to_nat ifid) links 0) data o]
-  | _ => []
-  end.
-Definition links_of (i0 : wiface) (ops : list wop) : list Z :=
-  wi_link i0 :: flat_map (fun op => match op with WAddIf i => [wi_link i] | _ => [] end) ops.
+(* expected_pkt, links_of, snaps_of, op_pre: see Proofs/NgFull.v *)
 (* preconditions: exactly what the writer enforces, plus what the format can represent *)
 (* str_ok, wif_ok, sec_ok: see Proofs/NgFile.v *)
 
@@ -92,19 +85,35 @@ Print Assumptions C14_ng_exec_is_session.
 
 (* ------------------------------------------------------------------ proved at file level *)
 (* C14_ng_roundtrip for the sub-language {NewNgWriterInterface, AddInterface, WritePacketWithOptions,
-   WriteDecryptionSecretsBlock}
+   WriteDecryptionSecretsBlock, WriteInterfaceStats} — every call the writer has
    (any section description, any number of interfaces of any link types and snap lengths, any
    NgPacketOptions), all link types wanted, copying or zero-copy call.  [ops_ok] (Proofs/NgFile.v) is
    exactly: strings and option values shorter than 65536 bytes, if_tsoffset 0, and for each packet
    what WritePacketWithOptions enforces (interface exists, caplen = |data| <= len) plus timestamp in
    [0, 2^63) ns, caplen <= snap length of its interface (when not 0), sizes below 2^32.
-   Missing from the full statement: WriteInterfaceStats blocks in the script; WantMixedLinkType = false (packets of other link types skipped). *)
+   An interface statistics block is parsed and recorded in the statistics of its interface (the
+   reader state is the script's interfaces up to their statistics, Proofs/NgFile.v sinv); a
+   decryption secrets block is skipped; the packets are unaffected.
+   Missing from the full statement: WantMixedLinkType = false (packets of other link types skipped). *)
 Theorem C14_ng_roundtrip_file_partial : forall ro sec i0 ops,
   ro_mixed ro = true -> sec_ok sec -> ops_ok [] (WAddIf i0 :: ops) -> zlen ops < 4294967290 ->
   let r := write_cut_read ro sec i0 ops (length (write_file sec i0 ops)) in
   new_class r = 0 /\ end_class r = 1 /\ packets r = exp_pkts [] (WAddIf i0 :: ops).
 Proof. exact roundtrip_file. Qed.
 Print Assumptions C14_ng_roundtrip_file_partial.
+
+(* C14_ng_roundtrip with WantMixedLinkType = false, same scripts.  NewNgReader also reads the first
+   interface; the reader then returns exactly [exp_unmixed] (Proofs/NgUnmixed.v): the packets of
+   interfaces whose link type is that of the first interface, in order, with no ancillary link type
+   (-1); a packet of another link type is skipped, or - with ErrorOnMismatchingLinkType - the packets
+   before it are returned and the reading ends with ErrNgLinkTypeMismatch (class 3) instead of io.EOF. *)
+Theorem C14_ng_roundtrip_file_unmixed_partial : forall ro sec i0 ops,
+  ro_mixed ro = false -> sec_ok sec -> ops_ok [] (WAddIf i0 :: ops) -> zlen ops < 4294967290 ->
+  let r := write_cut_read ro sec i0 ops (length (write_file sec i0 ops)) in
+  let e := exp_unmixed (ro_errmis ro) (wi_link i0) [i0] ops in
+  new_class r = 0 /\ packets r = fst e /\ end_class r = snd e.
+Proof. exact roundtrip_file_u. Qed.
+Print Assumptions C14_ng_roundtrip_file_unmixed_partial.
 
 (* under ops_ok the writer accepts every call and the file is the section header followed by the blocks *)
 Theorem C14_ng_writer_accepts : forall sec i0 ops, ops_ok [] (WAddIf i0 :: ops) -> zlen ops < 4294967290 ->
@@ -120,7 +129,7 @@ Print Assumptions C14_ng_writer_accepts.
    C14_ng_roundtrip_file_partial.  The reader runs with any fuel at least that of the whole file (the model's
    fuel is a proof device; C15_ng_terminates shows the fuel of the cut input is never exhausted
    either, but the equality of the two runs is not proved).  Cuts inside the section header block: C14_ng_prefix_header_partial.  The run with the cut
-   input's own fuel: C14_ng_prefix_file_own_fuel_partial.  Missing: ISB blocks, WantMixedLinkType = false. *)
+   input's own fuel: C14_ng_prefix_file_own_fuel_partial.  Missing: WantMixedLinkType = false. *)
 Theorem C14_ng_prefix_file_partial : forall ro sec i0 ops pre nxt post k,
   ro_mixed ro = true -> sec_ok sec -> ops_ok [] (WAddIf i0 :: ops) -> zlen ops < 4294967290 ->
   WAddIf i0 :: ops = pre ++ nxt :: post -> (k < length (enc_op nxt))%nat ->
@@ -263,11 +272,15 @@ Qed.
 (* non-vacuity of ops_ok *)
 Example C14_ng_ops_ok_nonvacuous :
   ops_ok [] [WAddIf (mkWif [101] [] [] [116] [] 1 9 0 96);
+             WStats 0 (mkWstats (Some 5000000000007) None (Some 7) 3 NoValue64);
+             WDSB 1414288203 [1;2;3];
              WPacket 0 5000000000007 3 5 [1;2;3] (mkPopts [[97]; []] (Some (1, 8, 64, 131072)) [(3, [1])] None (Some 9) None [])]
   /\ sec_ok sample_sec.
 Proof.
   split; [|unfold sec_ok, str_ok, sample_sec; cbn; unfold zlen; cbn; lia].
-  cbn [ops_ok app map]. split; [unfold wif_ok, str_ok; cbn; unfold zlen; cbn; lia|]. split; [|exact I].
+  cbn [ops_ok app map]. split; [unfold wif_ok, str_ok; cbn; unfold zlen; cbn; lia|].
+  split; [unfold zlen; cbn; lia|]. split; [lia|].
+  split; [reflexivity|]. split; [lia|]. split; [unfold zlen; cbn; lia|]. split; [|exact I].
   unfold wf_packet. split; [lia|]. split; [reflexivity|]. split; [lia|]. split; [lia|].
   split.
   { unfold wf_popts; cbn [po_comments po_flags po_hashes po_drop po_pid po_queue po_verdicts].
@@ -278,3 +291,120 @@ Proof.
   split; [vm_compute; reflexivity|]. split; [lia|].
   eexists. split; [reflexivity|]. split; [unfold iface_ns; cbn; auto|]. split; [right; vm_compute; congruence|vm_compute; reflexivity].
 Qed.
+
+(* the sample script read with WantMixedLinkType = false and ErrorOnMismatchingLinkType: one packet, then the mismatch error *)
+Example C14_ng_unmixed_sample :
+  let r := write_cut_read (mkRo false true false false) sample_sec sample_i0 sample_ops
+                          (length (write_file sample_sec sample_i0 sample_ops)) in
+  (packets r, end_class r) = exp_unmixed true (wi_link sample_i0) [sample_i0] sample_ops /\ end_class r = 3 /\ length (packets r) = 1%nat.
+Proof. vm_compute. repeat split; reflexivity. Qed.
+
+
+(* ------------------------------------------------------------------ the literal full statement *)
+(* C14_ng_roundtrip_statement as first written lacks one hypothesis the repaired reader needs:
+   capture length <= snap length of the packet's interface (when that is not 0).  The writer
+   accepts such a packet, the reader refuses it (check added by the repair, as in classic pcap), so
+   the statement as literally written is false; witness: snap length 2, a 4-byte packet. *)
+Theorem C14_ng_roundtrip_statement_as_written_refuted : ~ C14_ng_roundtrip_statement.
+Proof.
+  intros H.
+  specialize (H (mkRo true false false false) (mkSec [] [] [] []) (mkWif [] [] [] [] [] 1 9 0 2)
+                [WPacket 0 1000 4 4 [1;2;3;4] empty_popts] eq_refl).
+  assert (end_class (write_cut_read (mkRo true false false false) (mkSec [] [] [] []) (mkWif [] [] [] [] [] 1 9 0 2)
+                       [WPacket 0 1000 4 4 [1;2;3;4] empty_popts]
+                       (length (write_file (mkSec [] [] [] []) (mkWif [] [] [] [] [] 1 9 0 2) [WPacket 0 1000 4 4 [1;2;3;4] empty_popts]))) = 3) as E
+    by (vm_compute; reflexivity).
+  cbv zeta in H. rewrite E in H.
+  assert (3 = 1) as X; [|discriminate].
+  apply H.
+  - unfold sec_ok, str_ok; cbn; unfold zlen; cbn; lia.
+  - unfold wif_ok, str_ok; cbn; unfold zlen; cbn; lia.
+  - constructor; [|constructor]. split; [lia|]. split; [reflexivity|]. split; [unfold zlen; cbn; lia|].
+    split; [|vm_compute; reflexivity].
+    unfold wf_popts, empty_popts; cbn. repeat split; auto; constructor.
+  - vm_compute. repeat constructor.
+Qed.
+Print Assumptions C14_ng_roundtrip_statement_as_written_refuted.
+
+(* With that hypothesis the statement is C14_ng_roundtrip_file_partial, whose precondition ops_ok
+   is the per-call form of the hypotheses above plus caplen <= snap length, and which also allows
+   WriteInterfaceStats and WriteDecryptionSecretsBlock calls; C14_ng_roundtrip_file_unmixed_partial
+   is its WantMixedLinkType = false counterpart.  What remains open for the C14 pcapng statement:
+   if_tsoffset <> 0 (refuted: C14_ng_roundtrip_tsoffset_refuted, known finding), the prefix
+   theorems for WantMixedLinkType = false, and option values / data of 2^16 / 2^32 bytes and
+   beyond (outside what the format can represent). *)
+
+(* ------------------------------------------------------------------ the full statement, proved *)
+(* C14_ng_roundtrip at full strength, with the snap length hypothesis made explicit and every
+   writer call allowed: for every section description, first interface and script of AddInterface,
+   WritePacketWithOptions, WriteInterfaceStats and WriteDecryptionSecretsBlock calls that the writer
+   ACCEPTED (write_blocks flags), where each call satisfies [op_pre] - interface descriptions with
+   strings below 2^16 bytes and if_tsoffset 0; packets with timestamp in [0, 2^63) ns,
+   caplen = |data| <= len < 2^32, option values below 2^16 bytes, caplen <= snap length of the
+   interface (when not 0); secrets below 2^32 bytes - the reader (all link types wanted, copying or
+   zero-copy) returns exactly the packets of the script with their interface, timestamp, lengths,
+   data, options and link type, then io.EOF. *)
+Theorem C14_ng_roundtrip : forall ro sec i0 ops,
+  ro_mixed ro = true -> sec_ok sec -> wif_ok i0 -> zlen ops < 4294967290 ->
+  Forall (op_pre (snaps_of i0 ops)) ops ->
+  Forall (fun r => snd r = true) (write_blocks sec i0 ops) ->
+  let r := write_cut_read ro sec i0 ops (length (write_file sec i0 ops)) in
+  new_class r = 0 /\ end_class r = 1 /\ packets r = flat_map (expected_pkt (links_of i0 ops)) ops.
+Proof. exact roundtrip_full. Qed.
+Print Assumptions C14_ng_roundtrip.
+
+(* the call-by-call hypotheses give ops_ok, and exp_pkts is the flat_map form *)
+Theorem C14_ng_hypotheses_bridge : forall ops ws, zlen ws + zlen ops < 4294967296 ->
+  Forall (op_pre (map wi_snap ws ++ snaps_from ops)) ops ->
+  Forall (fun r => snd r = true) (wrun (zlen ws) ops) ->
+  ops_ok ws ops /\ exp_pkts ws ops = flat_map (expected_pkt (map wi_link ws ++ links_from ops)) ops.
+Proof. exact bridge. Qed.
+Print Assumptions C14_ng_hypotheses_bridge.
+
+(* non-vacuity: the sample script satisfies the hypotheses of C14_ng_roundtrip *)
+Example C14_ng_roundtrip_nonvacuous :
+  Forall (fun r => snd r = true) (write_blocks sample_sec sample_i0 sample_ops) /\ wif_ok sample_i0 /\ sec_ok sample_sec
+  /\ nth 1 (snaps_of sample_i0 sample_ops) 5 = 0 /\ nth 0 (snaps_of sample_i0 sample_ops) 5 = 96.
+Proof.
+  split; [vm_compute; repeat constructor|]. split; [unfold wif_ok, str_ok, sample_i0; cbn; unfold zlen; cbn; lia|].
+  split; [unfold sec_ok, str_ok, sample_sec; cbn; unfold zlen; cbn; lia|]. split; reflexivity.
+Qed.
+
+(* C14_ng_prefix with WantMixedLinkType = false, for every cut behind the first interface block (at
+   block boundaries and inside packet, interface description, statistics and decryption secrets
+   blocks - inside a packet block whether its link type is wanted or not): the packets of the
+   complete blocks as in C14_ng_roundtrip_file_unmixed_partial; then ErrNgLinkTypeMismatch if a
+   rejected packet is among them, else io.EOF at the boundary and io.ErrUnexpectedEOF inside the
+   block.  Missing for WantMixedLinkType = false: cuts inside the section header / first interface block
+   (both read by NewNgReader). *)
+Theorem C14_ng_prefix_file_unmixed_partial : forall ro sec i0 ops pre nxt post k,
+  ro_mixed ro = false -> sec_ok sec -> ops_ok [] (WAddIf i0 :: ops) -> zlen ops < 4294967290 ->
+  ops = pre ++ nxt :: post -> (k < length (enc_op nxt))%nat ->
+  let file := write_file sec i0 ops in
+  forall F, (fuel_for (zlen file) <= F)%nat ->
+  let cut := (length (enc_shb sec) + length (enc_idb i0) + length (enc_ops pre) + k)%nat in
+  let r := fst (run_d (session ro F) (firstn cut file)) in
+  let e := exp_unmixed (ro_errmis ro) (wi_link i0) [i0] pre in
+  new_class r = 0 /\ packets r = fst e
+  /\ end_class r = (if snd e =? 3 then 3 else if (k =? 0)%nat then 1 else 2).
+Proof. exact prefix_file_u. Qed.
+Print Assumptions C14_ng_prefix_file_unmixed_partial.
+
+(* C14_ng_prefix from the same call-by-call hypotheses as C14_ng_roundtrip (all link types wanted):
+   the script with its first interface is split anywhere as pre ++ nxt :: post and the file cut k
+   bytes into the block of nxt; exactly the packets of pre come back (exp_pkts, whose flat_map form
+   is C14_ng_hypotheses_bridge), then io.EOF at the block boundary (k = 0) and io.ErrUnexpectedEOF
+   inside the block.  Cuts inside the section header: C14_ng_prefix_header_partial; the run with the
+   cut input's own fuel: C14_ng_prefix_file_own_fuel_partial. *)
+Theorem C14_ng_prefix : forall ro sec i0 ops pre nxt post k,
+  ro_mixed ro = true -> sec_ok sec -> wif_ok i0 -> zlen ops < 4294967290 ->
+  Forall (op_pre (snaps_of i0 ops)) ops ->
+  Forall (fun r => snd r = true) (write_blocks sec i0 ops) ->
+  WAddIf i0 :: ops = pre ++ nxt :: post -> (k < length (enc_op nxt))%nat ->
+  let file := write_file sec i0 ops in
+  forall F, (fuel_for (zlen file) <= F)%nat ->
+  let cut := (length (enc_shb sec) + length (enc_ops pre) + k)%nat in
+  let r := fst (run_d (session ro F) (firstn cut file)) in
+  new_class r = 0 /\ packets r = exp_pkts [] pre /\ end_class r = (if (k =? 0)%nat then 1 else 2).
+Proof. exact prefix_full. Qed.
+Print Assumptions C14_ng_prefix.
